@@ -173,7 +173,7 @@ func evalC18Config(c *c18ConfigCase) ev.Verdict {
 		return ev.Verdict{Err: err, Key: "harness"}
 	}
 	defer removeAll(dir)
-	if err := writeFile(dir+"/config.yaml", c.Cfg.YAML()); err != nil {
+	if err := writeConfig(dir, c.Cfg); err != nil {
 		return ev.Verdict{Err: err, Key: "harness"}
 	}
 	if c.Decoys {
@@ -433,7 +433,7 @@ func evalC18Argv(c *c18ArgvCase) evalResult {
 		return evalResult{V: ev.Verdict{Err: err, Key: "harness"}}
 	}
 	defer removeAll(dir)
-	if err := writeFile(dir+"/config.yaml", c.Cfg.YAML()); err != nil {
+	if err := writeConfig(dir, c.Cfg); err != nil {
 		return evalResult{V: ev.Verdict{Err: err, Key: "harness"}}
 	}
 	k := c.Cfg.clamps()
